@@ -61,7 +61,11 @@ var browserURL = func() *url.URL {
 	return u
 }()
 
-func newPipeline(w *world, cas blobstore.BlobAccess, ac blobstore.BlobAccess, batchSize int, sem *semaphore.Weighted) *pipeline {
+func newPipeline(w *world, cas blobstore.BlobAccess, ac blobstore.BlobAccess, batchSize int, sem *semaphore.Weighted, opts ...pipeOpts) *pipeline {
+	var o pipeOpts
+	if len(opts) > 0 {
+		o = opts[0]
+	}
 	writer, flusher := re_blobstore.NewBatchedStoreBlobAccess(cas, digest.KeyWithoutInstance, batchSize, sem)
 	flush := func(ctx context.Context) error {
 		// Transparent wrapper: observes what the flusher reports.
@@ -72,7 +76,13 @@ func newPipeline(w *world, cas blobstore.BlobAccess, ac blobstore.BlobAccess, ba
 		return err
 	}
 	var exec builder.BuildExecutor = &fakeLocal{w: w, writer: writer}
+	if o.inner != nil {
+		exec = o.inner(w, writer)
+	}
 	exec = builder.NewStorageFlushingBuildExecutor(exec, flush)
+	if o.timestamped {
+		exec = builder.NewTimestampedBuildExecutor(exec, constClock{}, "worker")
+	}
 	exec = builder.NewCachingBuildExecutor(exec, cas, ac, browserURL)
 	return &pipeline{w: w, exec: exec, writer: writer, flush: flush}
 }
@@ -305,6 +315,8 @@ func TestMC(t *testing.T) {
 		storeShared(1, 1, [2][]string{{"A", "B"}, {"C", "A"}}),
 		storeShared(2, 2, [2][]string{{"A", "B", "C"}, {"D", "A"}}),
 	)
+	scenarios = append(scenarios, realOutputs(2, 2), realOutputs(1, 1))
+	scenarios = append(scenarios, twoActionsTimestamped(1, 1), twoActionsTimestamped(2, 2))
 	scenarios = append(scenarios, mainWiring())
 	mc.Main(t, scenarios, nil)
 }
